@@ -264,6 +264,7 @@ class Session:
             self.fs.add(self.path, built.image, mirror=True)
         else:
             self.fs.add(self.path, built.image)
+        self.anonymous = open_kind == "anon"
         self.seams = Seams(fs=self.fs, blocksize=knobs.get("block"), memlimit=knobs.get("chunk"), inline_threads=True)
         self.seams.__enter__()
         pw = built.password if password == "__model__" else password
@@ -271,7 +272,7 @@ class Session:
             if open_kind == "path":
                 self.z = py7zr.SevenZipFile(self.path, "r", password=pw, mp=mp)
             else:
-                self.raw = SimRaw(self.fs.get(self.path), readable=True)
+                self.raw = SimRaw(self.fs.get(self.path), readable=True, anonymous=open_kind == "anon")
                 self.z = py7zr.SevenZipFile(self.raw, "r", password=pw, mp=mp)
         except BaseException:
             self.seams.__exit__(None, None, None)
@@ -313,6 +314,9 @@ def do_call(sess: Session, call, outdir):
         except KeyError:
             return ("info", KeyError)
     if op == "archiveinfo":
+        if getattr(sess, "anonymous", False):
+            # archiveinfo() describes the archive FILE (name, os.stat): a stream without a name has none
+            return ("ainfo", "not applicable")
         a = z.archiveinfo()
         return ("ainfo", a.size, a.header_size, sorted(a.method_names), a.solid, a.blocks, a.uncompressed)
     if op == "needs_password":
@@ -496,6 +500,8 @@ def listing_truth(sess: Session, built: Built):
 
 def archive_summary_truth(sess: Session, built: Built):
     probs = []
+    if getattr(sess, "anonymous", False):
+        return probs
     try:
         a = sess.z.archiveinfo()
     except Exception as e:
